@@ -72,7 +72,7 @@ ENUM = ["arange: call form, step, number of blocks (normalize_chunks multiplies 
         "offsets and axis pairs are looped inside one path",
         "linspace, arange with fractional steps or an explicit dtype, indices, meshgrid, fromfunction, ones_like / zeros_like / full_like / empty_like, "
         "tri's and diag's lazy chunks: covered ONLY by the solver-enumerated e2e witnesses (one per k-th path model, with the model's sizes)"]
-OUTSIDE = ["fractional arange steps: length rounding ceil((stop-start)/step) in floating point and per-block start rounding (only dyadic steps are witnessed, where floats are exact)",
+OUTSIDE = ["fractional arange steps beyond the solver-enumerated cases of arange_fractional[...] (float length rounding: no symbolic claim; values compared at 1e-12 relative)",
            "linspace: float step and per-block start accumulation; witnesses compare shape, dtype, chunk sums exactly and values within 8 eps of the end points' magnitude "
            "(dask differs from np.linspace by 1 ulp for non-dyadic steps, e.g. linspace(-3, -2, 3, endpoint=False, chunks=1)); retstep for num < 2 (dask returns a finite step, NumPy nan)",
            "chunks='auto' / byte strings (C23), like= / non-NumPy backends, unknown chunk sizes, dask-array arguments to linspace",
@@ -829,6 +829,43 @@ def _e2e_fill(shape, cs):
         raise Violation(f"empty_like({tag}): shape/chunks/dtype")
 
 
+FRAC_STEPS = (0.1, 0.3, 0.7, 0.15, 0.25, 1.5, -0.3, -0.1)
+FRAC_STARTS = (0, 1, -2.5)
+
+
+def mk_arange_fractional(kmax):
+    """arange with fractional (non-dyadic) steps whose stop is start + k * step: the element count ceil((stop - start) / step) is float
+    arithmetic, so step, start, k and the chunk size are solver-enumerated; shape and chunks must equal NumPy's exactly, values within
+    1e-12 relative (dask computes each block's start separately, NumPy one running sum)"""
+    import operator
+
+    def setup(e):
+        step = e.pick("step", FRAC_STEPS)
+        start = e.pick("start", FRAC_STARTS)
+        k = e.int("k", 0, kmax)
+        c = e.pick("chunk", (1, 2, 3, 5))
+        nudge = e.pick("nudge", (0.0, 1e-9, -1e-9))
+        return step, start, k, c, nudge
+
+    def run(e, step, start, k, c, nudge):
+        import dask.array as da
+        k = operator.index(k)
+        stop = start + k * step + nudge * (1 if step > 0 else -1)
+        want = np.arange(start, stop, step)
+        d = da.arange(start, stop, step, chunks=c)
+        e.check(d.shape == want.shape, f"arange({start}, {stop}, {step}) has lazy shape {d.shape}, NumPy {want.shape}")
+        e.check(sum(d.chunks[0]) == want.shape[0], "lazy chunks do not add up to NumPy's length")
+        got = d.compute(scheduler="sync")
+        e.check(got.shape == want.shape, f"arange({start}, {stop}, {step}, chunks={c}) computes {got.shape[0]} elements, NumPy {want.shape[0]}")
+        if want.size:
+            err = float(np.max(np.abs(got - want) / np.maximum(1.0, np.abs(want))))
+            e.check(err < 1e-12, f"arange({start}, {stop}, {step}, chunks={c}) differs from NumPy by {err:.3g} (relative)")
+        e.check(got.dtype == want.dtype, "dtype differs")
+        return int(want.shape[0])
+
+    return Obligation(f"arange_fractional[k<={kmax}]", setup, run)
+
+
 def obligations(tier):
     obs = []
     if tier == "quick":
@@ -844,7 +881,9 @@ def obligations(tier):
         obs.append(mk_diagonal(2, True, DIAGONAL_CHUNKS[:3]))
         obs.append(mk_wrap(1, 8, 9))
         obs.append(mk_wrap(2, 4, 5))
+        obs.append(mk_arange_fractional(13))
     else:
+        obs.append(mk_arange_fractional(40))
         obs.append(mk_arange(16, 17, (1, 2, 3, 4, 5, -1, -2, -3, -4, -5), every=11))
         obs.append(mk_arange(10 ** 6, 2 * 10 ** 6 + 1, (1, 2, 3, 7, 10, -1, -2, -3, -7, -10), max_blocks=6, every=11))
         obs.append(mk_eye(9, 10, 12, every=13))
